@@ -17,7 +17,7 @@ pub fn prop() -> Prop {
     Prop {
         id: "C09",
         level: "exploration",
-        rule: "every program of the scope slice (declarations with distinct literals so that the value read identifies the declaration resolved, assignments, prints, blocks, als, a one-shot loop, named functions f(p) in blocks and in functions, calls, over the names a, b, f, p) up to N nodes, plus the nested-function directed family and the block-function family (functions defined in top-level blocks / als branches / loop bodies nested to depth 3 with every subset of levels declaring the same name, reading and writing it, called inside the scope); for each base program the reference interpreter's outcome, and exhaustively: (r) every consistent renaming of one declaration and exactly the uses the model binds to it to a fresh name, (s) insertion of an unused `stel z = 0` before every statement of every statement list, and of a shadowing `stel a = 9` wherever no later mention of `a` follows in that list, both of which must leave value, output and error unchanged; (u) replacement of each single identifier occurrence by an undeclared name, which must give a reference error with EMPTY output; (d) an undeclared name in 11 kinds of use x 12 kinds of code that can never run (after antwoord / stop / volgende, in branches not taken, in loops that never run, in functions never called, after output, after a failing statement) must be refused all the same. Non-trivial = the base program declares at least one name and is defined by the model; distinct = distinct texts",
+        rule: "every program of the scope slice (declarations with distinct literals so that the value read identifies the declaration resolved, assignments, prints, blocks, als, a one-shot loop, named functions f(p) in blocks and in functions, calls, over the names a, b, f, p) up to N nodes, plus the nested-function directed family and the block-function family (functions defined in top-level blocks / als branches / loop bodies nested to depth 3 with every subset of levels declaring the same name, reading and writing it, called inside the scope); for each base program the reference interpreter's outcome, and exhaustively: (r) every consistent renaming of one declaration and exactly the uses the model binds to it to a fresh name, (s) insertion of an unused `stel z = 0` before every statement of every statement list, and of a shadowing `stel a = 9` wherever no later mention of `a` follows in that list, both of which must leave value, output and error unchanged; (u) replacement of each single identifier occurrence by an undeclared name, which must give a reference error with EMPTY output; (e) there are exactly seven builtin names: every name of up to 3 lower-case letters and ~250 words a builtin could plausibly be called must be refused when called undeclared and must reach the user's function when declared; (d) an undeclared name in 11 kinds of use x 12 kinds of code that can never run (after antwoord / stop / volgende, in branches not taken, in loops that never run, in functions never called, after output, after a failing statement) must be refused all the same. Non-trivial = the base program declares at least one name and is defined by the model; distinct = distinct texts",
         assumptions: &["static resolution rules of refint::Resolver (DESIGN 4.2 Names) are the specification", "U1/U2/U6/U7 programs are excluded from the base set"],
         run,
         replay,
@@ -287,6 +287,71 @@ fn run(sh: &mut Shard) {
                     let _: Option<Expr> = None;
                 }
             }
+        }
+    }
+    // there are exactly seven builtin names: every other name is the user's. Every name of up to 3 lower-case
+    // letters and ~250 words a builtin could plausibly be called (Dutch and English) must be refused when it
+    // is called without a declaration, and must call the user's function when there is one
+    {
+        use crate::gen::*;
+        use nederlang::verif::Operator;
+        let builtins = ["print", "type", "bool", "int", "float", "string", "lengte"];
+        let keywords = ["als", "anders", "zolang", "functie", "stel", "ja", "nee", "stop", "volgende", "antwoord"];
+        let mut names: Vec<String> = Vec::new();
+        for a in b'a'..=b'z' {
+            names.push((a as char).to_string());
+            for b in b'a'..=b'z' {
+                names.push(format!("{}{}", a as char, b as char));
+                for c in b'a'..=b'z' {
+                    names.push(format!("{}{}{}", a as char, b as char, c as char));
+                }
+            }
+        }
+        for w in "toon druk drukaf druk_af afdrukken schrijf schrijven zeg laat_zien weergeven uitvoer echo puts println printf write writeln log say show display output \
+                  soort typeof type_of typevan aard klasse kind class is_a \
+                  getal geheel geheelgetal integer toint to_int naar_getal parseint parse_int number num nummer afronden round floor ceil trunc \
+                  kommagetal komma decimaal tofloat to_float double real breuk reeel parsefloat \
+                  waarheid boolean tobool to_bool logisch waar onwaar \
+                  tekst str tostring to_string naar_tekst tekenreeks draad chr char repr format formatteer \
+                  len length size grootte aantal count omvang lang \
+                  invoer input lees read readline vraag prompt \
+                  lijst array list vector reeks rij push pop append toevoegen voegtoe verwijder remove insert sorteer sort omgekeerd reverse bevat contains zoek find index indexof \
+                  min max abs som sum gemiddelde mean wortel sqrt macht pow sin cos tan exp ln log10 willekeurig random rand tijd time klok clock nu now datum date slaap sleep wacht wait \
+                  exit stoppen quit halt einde afsluiten assert controleer bewering fout error gooi throw raise probeer try vang catch \
+                  range bereik van tot elk each foreach map filter reduce vouw fold zip enumerate keys values sleutels waarden \
+                  upper lower hoofdletters kleine_letters trim strip split splits join voegsamen vervang replace begint_met eindigt_met starts_with ends_with substr substring deel slice \
+                  null nul niets niks leeg none nil undefined void waarde value object dict map_ set verzameling tuple paar pair \
+                  main hoofd start begin einde_ end import use gebruik laad load require module pakket package eval exec compile run voer_uit uitvoeren debug trace dump inspect help"
+            .split_whitespace()
+        {
+            names.push(w.to_string());
+        }
+        names.sort();
+        names.dedup();
+        for name in names {
+            if builtins.contains(&name.as_str()) || keywords.contains(&name.as_str()) {
+                continue;
+            }
+            if !sh.mine() {
+                continue;
+            }
+            sh.begin(&|| format!("the name {name} is the user's"));
+            sh.count("family:names-are-the-users");
+            // called without a declaration: refused before anything runs
+            let p1 = vec![print1(int(1)), es(calln(&name, vec![int(1)]))];
+            if let Some(r) = differential(sh, "undeclared", &p1, RunOpts { budget: Some(10_000), ledger: false, trace: false, render: true }) {
+                if !matches!(r.model.end, End::Error(_)) || !r.model.output.is_empty() {
+                    // a word the parser does not take for an identifier: outside this family
+                    sh.count("names-not-identifiers");
+                    continue;
+                }
+                sh.nontrivial(&name);
+            }
+            // declared by the user (as a function, and as a plain variable holding one inside a block): the user's is called
+            let p2 = vec![es(func(&name, &["x"], vec![Stmt::Return(infix(id("x"), Operator::Multiply, int(2)))])), es(calln(&name, vec![int(21)]))];
+            differential(sh, "shadowing", &p2, RunOpts { budget: Some(10_000), ledger: false, trace: false, render: true });
+            let p3 = vec![Stmt::Block(vec![let_(&name, func("", &["x"], vec![es(infix(id("x"), Operator::Add, int(1)))])), print1(calln(&name, vec![int(1)]))])];
+            differential(sh, "shadowing", &p3, RunOpts { budget: Some(10_000), ledger: false, trace: false, render: true });
         }
     }
     let sl = slices::scope_slice();
